@@ -335,6 +335,20 @@ def rechunk(
     """
     # don't rechunk if array is empty
     if x.ndim > 0 and all(s == 0 for s in x.shape):
+        # ... but honour explicitly requested chunks: the number of (empty)
+        # blocks matters to blockwise operations that pair blocks by index
+        if (
+            isinstance(chunks, (tuple, list))
+            and len(chunks) == x.ndim
+            and all(
+                isinstance(c, (tuple, list)) and len(c) > 0 and all(i == 0 for i in c)
+                for c in chunks
+            )
+            and tuple(map(tuple, chunks)) != x.chunks
+        ):
+            from dask.array.creation import empty_like
+
+            return empty_like(x, chunks=tuple(map(tuple, chunks)))
         return x
 
     if isinstance(chunks, dict):
